@@ -44,5 +44,5 @@ GenNext ==
      ELSE GSelect
 GenInit == Init /\ hist = <<>> /\ bad \in SUBSET Eps
 GenSpec == GenInit /\ [][GenNext]_<<vars, hist, bad>>
-Emit == TLCGet("level") < D \/ PrintT(ToJson([n |-> N, calls |-> Cardinality(Calls), overlap |-> Overlap, steps |-> hist]))
+Emit == TLCGet("level") < D \/ PrintT(ToJson([n |-> N, calls |-> Cardinality(Calls), overlap |-> Overlap, keepalive |-> KeepAlive, steps |-> hist]))
 ====
